@@ -435,6 +435,12 @@ func (ab *dsAddrBook) storeSignedPeerRecord(p peer.ID, envelope *record.Envelope
 	}
 	pr.Lock()
 	defer pr.Unlock()
+	if len(pr.Addrs) == 0 {
+		// A peer without addresses has no signed peer record: nothing would be
+		// written to the datastore, but a cached entry would keep the record and
+		// the next AddAddrs would write it back.
+		return nil
+	}
 	pr.CertifiedRecord = &pb.AddrBookRecord_CertifiedRecord{
 		Seq: rec.Seq,
 		Raw: envelopeBytes,
